@@ -278,6 +278,34 @@ theorem d15_array_agg_first_null_refused :
     deviationClass {} d15Stmt [rowKV 97 .null, rowKV 98 (.int 5)] = "D15:array_agg-first-value-null" :=
   ⟨rfl, rfl, rfl⟩
 
+/-! ### the answers the two open findings PREDICT (`Spec.Agg.predicted`)
+
+`./check` attributes a deviation from the specification to D10 / D15 only when the implementation's answer is exactly the
+predicted one (DESIGN §10). On the two witness inputs the prediction is what the executed batch run of the model prints —
+and not what the specification demands. -/
+
+def kvQuery (q : AggStmt) : Query := { stmt := .aggregate q, table := { name := "t", columns := ["k", "v"] }, join := none }
+def kvLine (k : Nat) (v : Value) : FileLine := { readable := true, line := { text := [k], row := [.text [k], v] } }
+
+/-- D10: rows (a, 1), (b, NULL): the specification demands `a, 1` and `b, 0`; the finding predicts exactly `a, 1` (the
+group `b` is missing, nothing else differs, both lines counted, no error) — and that is what the batch run prints -/
+example :
+    (Spec.Agg.batch {} (kvQuery d10Stmt) d10Stmt [] [[kvLine 97 (.int 1), kvLine 98 .null]]).map (·.1.printed) =
+      some ["k: 'a', count1: 1", "k: 'b', count1: 0"] ∧
+    Spec.Agg.predicted {} (kvQuery d10Stmt) d10Stmt [] [[kvLine 97 (.int 1), kvLine 98 .null]] =
+      some { printed := ["k: 'a', count1: 1"], totalLines := 2 } ∧
+    runBatch {} (kvQuery d10Stmt) [] [[kvLine 97 (.int 1), kvLine 98 .null]] none =
+      { printed := ["k: 'a', count1: 1"], totalLines := 2 } := ⟨rfl, rfl, rfl⟩
+
+/-- D15: values NULL, 5: the finding predicts the error `CannotCreateArrayOfNullType` while the FIRST line is fed (one
+line counted, nothing printed); with the NULL in the second row of the group nothing is predicted (no finding applies) -/
+example :
+    Spec.Agg.predicted {} (kvQuery d15Stmt) d15Stmt [] [[kvLine 97 .null, kvLine 98 (.int 5)]] =
+      some { error := some .cannotCreateArrayOfNullType, totalLines := 1 } ∧
+    runBatch {} (kvQuery d15Stmt) [] [[kvLine 97 .null, kvLine 98 (.int 5)]] none =
+      { error := some .cannotCreateArrayOfNullType, totalLines := 1 } ∧
+    Spec.Agg.predicted {} (kvQuery d15Stmt) d15Stmt [] [[kvLine 98 (.int 5), kvLine 97 .null]] = none := ⟨rfl, rfl, rfl⟩
+
 /-! ### non-vacuity -/
 
 /-- `SELECT COUNT(*) FROM t` -/
